@@ -99,7 +99,7 @@ fn cases(tier: Tier) -> Vec<Case> {
         }
     }
     // sequential history passes (relation code 100: first order, 101: second order)
-    for rel in [100u8, 101] {
+    for rel in [100u8, 101, 102] {
         out.push(Case { nuni: 4, a: NumSpec::constant(1.5), b: NumSpec::constant(-2.5), storage: 0, large: Some((0, rel)) });
     }
     out
@@ -448,7 +448,91 @@ fn check_sequence(second: bool, case: &Case, idx: u64, acc: &mut Acc) {
     acc.sample(cj);
 }
 
+/// layout differential at awkward magnitudes: the same two numbers (by name) combined with shared lists, with
+/// separate same-order lists, with the second list re-ordered and with an extra zero-derivative name must give the
+/// SAME result by name, bit for bit, also where a product of derivatives is close to the largest double or subnormal
+fn check_differential(case: &Case, idx: u64, acc: &mut Acc) {
+    use rateslib::dual::{Gradient1, Gradient2};
+    let cj = || serde_json::to_value(case).unwrap();
+    let names = |l: &[usize]| -> Vec<String> { l.iter().map(|i| format!("n{}", i)).collect() };
+    let tables: [([f64; 2], [f64; 2]); 5] = [
+        ([1.0e154, 3.0e-162], [1.2e154, 1.0e-162]),
+        ([9.0e153, -2.0e-160], [-1.9e154, 2.5e-163]),
+        ([1.5, -0.75], [2.25, 0.3]),
+        ([1.0e300, 1.0e-300], [1.7e8, 4.0e-20]),
+        ([-0.0, 1.0e-200], [1.0e-200, 0.0]),
+    ];
+    acc.nontrivial();
+    for (ti, (ga, gb)) in tables.iter().enumerate() {
+        let hflat = |g: &[f64; 2], l: &[usize], scale: f64| -> Vec<f64> {
+            let mut h = vec![];
+            for a in l {
+                for b in l {
+                    h.push(if *a < 2 && *b < 2 { scale * (g[*a].abs().sqrt() * g[*b].abs().sqrt()).min(1e150) } else { 0.0 });
+                }
+            }
+            h
+        };
+        let gof = |g: &[f64; 2], l: &[usize]| -> Vec<f64> { l.iter().map(|i| if *i < 2 { g[*i] } else { 0.0 }).collect() };
+        // (list of a, list of b, share the list?)
+        let variants: [(&[usize], &[usize], bool); 5] = [(&[0, 1], &[0, 1], true), (&[0, 1], &[0, 1], false), (&[0, 1], &[1, 0], false), (&[0, 1], &[0, 2, 1], false), (&[1, 0], &[0, 1, 2], false)];
+        let mut first1: Option<Vec<Vec<u64>>> = None;
+        let mut first2: Option<Vec<Vec<u64>>> = None;
+        let all = names(&[0, 1, 2]);
+        for (vi, (la, lb, share)) in variants.iter().enumerate() {
+            acc.evals_add(2);
+            let a1 = Dual::try_new(1.5, names(la), gof(ga, la)).unwrap();
+            let b1 = if *share { Dual::try_new_from(&a1, -2.5, names(lb), gof(gb, lb)).unwrap() } else { Dual::try_new(-2.5, names(lb), gof(gb, lb)).unwrap() };
+            let a2 = Dual2::try_new(1.5, names(la), gof(ga, la), hflat(ga, la, 0.25)).unwrap();
+            let b2 = if *share { Dual2::try_new_from(&a2, -2.5, names(lb), gof(gb, lb), hflat(gb, lb, 0.125)).unwrap() } else { Dual2::try_new(-2.5, names(lb), gof(gb, lb), hflat(gb, lb, 0.125)).unwrap() };
+            let r1: Vec<Vec<u64>> = [&a1 + &b1, &a1 - &b1, &a1 * &b1, &a1 / &b1].iter().map(|r| { let mut v = vec![r.real().to_bits()]; v.extend(r.gradient1(all.clone()).iter().map(|x| if x.is_nan() { 1 } else if *x == 0.0 { 0 } else { x.to_bits() })); v }).collect();
+            let r2: Vec<Vec<u64>> = [&a2 + &b2, &a2 - &b2, &a2 * &b2, &a2 / &b2]
+                .iter()
+                .map(|r| {
+                    let mut v = vec![r.real().to_bits()];
+                    v.extend(r.gradient1(all.clone()).iter().map(|x| if x.is_nan() { 1 } else if *x == 0.0 { 0 } else { x.to_bits() }));
+                    // the stored half-Hessian by name (reading it back doubled would hide a difference behind an overflow)
+                    let pos: Vec<Option<usize>> = all.iter().map(|nm| r.vars().iter().position(|q| q == nm)).collect();
+                    for i in 0..3 {
+                        for j in 0..3 {
+                            let x = match (pos[i], pos[j]) {
+                                (Some(p), Some(q)) => r.dual2()[[p, q]],
+                                _ => 0.0,
+                            };
+                            v.push(if x.is_nan() { 1 } else if x == 0.0 { 0 } else { x.to_bits() });
+                        }
+                    }
+                    v
+                })
+                .collect();
+            match &first1 {
+                None => first1 = Some(r1),
+                Some(f) => {
+                    if *f != r1 {
+                        let op = (0..4).find(|k| f[*k] != r1[*k]).unwrap();
+                        acc.violate(&format!("layout-differential/Dual/{}", (["add", "sub", "mul", "div"])[op]), idx, cj(), json!({"table": ti, "variant": vi, "want_bits": f[op]}), json!(r1[op]));
+                    }
+                }
+            }
+            match &first2 {
+                None => first2 = Some(r2),
+                Some(f) => {
+                    if *f != r2 {
+                        let op = (0..4).find(|k| f[*k] != r2[*k]).unwrap();
+                        acc.violate(&format!("layout-differential/Dual2/{}", (["add", "sub", "mul", "div"])[op]), idx, cj(), json!({"table": ti, "variant": vi, "want_bits": f[op]}), json!(r2[op]));
+                    }
+                }
+            }
+        }
+    }
+    acc.sample(cj);
+}
+
 pub fn check(case: &Case, idx: u64, acc: &mut Acc) {
+    if let Some((_, 102)) = case.large {
+        check_differential(case, idx, acc);
+        return;
+    }
     if let Some((_, relation)) = case.large {
         if relation >= 100 {
             check_sequence(relation == 101, case, idx, acc);
@@ -679,6 +763,44 @@ pub fn check(case: &Case, idx: u64, acc: &mut Acc) {
             }
         }
     }
+    // ---------------- non-standard memory layouts: the same numbers built through `clone_from` with a reversed-memory
+    // gradient (and a column-major second-derivative array) are the same numbers
+    {
+        acc.evals_add(6);
+        let (a1, b1, an1) = (sa.dual(&u), sb.dual(&u), sa.dual_nonstd(&u));
+        let want1 = ref_eq(&sa.refd1(), &sb.refd1(), false);
+        if !(an1 == a1) || !(a1 == an1) || (an1 == b1) != want1 || (b1 == an1) != want1 {
+            acc.violate("layout/Dual/eq", idx, cj(), json!({"want_vs_own_standard_form": true, "want_vs_other": want1}), json!([an1 == a1, a1 == an1, an1 == b1, b1 == an1]));
+        }
+        for (op, got, want) in [("add", &an1 + &b1, sa.refd1().add(&sb.refd1())), ("mul", &b1 * &an1, sb.refd1().mul(&sa.refd1()))] {
+            if let Err(e) = cmp_dual(&got, &want, &u, TOL, TOL) {
+                acc.violate(&format!("layout/Dual/{}", op), idx, cj(), json!("by-name reference"), json!(e));
+            }
+        }
+        let (a2, b2, an2) = (sa.dual2(&u), sb.dual2(&u), sa.dual2_nonstd(&u));
+        let want2 = ref_eq(&sa.refd2(), &sb.refd2(), true);
+        if !(an2 == a2) || !(a2 == an2) || (an2 == b2) != want2 || (b2 == an2) != want2 {
+            acc.violate("layout/Dual2/eq", idx, cj(), json!({"want_vs_own_standard_form": true, "want_vs_other": want2}), json!([an2 == a2, a2 == an2, an2 == b2, b2 == an2]));
+        }
+        // two non-standard operands on one shared list that differ must not compare equal
+        if sa.names == sb.names && !sa.names.is_empty() {
+            let bn2 = sb.dual2_nonstd(&u);
+            let bn2s = Dual2::clone_from(&an2, bn2.real(), { use rateslib::dual::Gradient1; bn2.dual().clone() }, { use rateslib::dual::Gradient2; bn2.dual2().clone() });
+            if (an2 == bn2s) != want2 {
+                acc.violate("layout/Dual2/eq-shared-list", idx, cj(), json!(want2), json!(an2 == bn2s));
+            }
+            let bn1 = sb.dual_nonstd(&u);
+            let bn1s = Dual::clone_from(&an1, bn1.real(), { use rateslib::dual::Gradient1; bn1.dual().clone() });
+            if (an1 == bn1s) != want1 {
+                acc.violate("layout/Dual/eq-shared-list", idx, cj(), json!(want1), json!(an1 == bn1s));
+            }
+        }
+        for (op, got, want) in [("add", &an2 + &b2, sa.refd2().add(&sb.refd2())), ("mul", &b2 * &an2, sb.refd2().mul(&sa.refd2()))] {
+            if let Err(e) = cmp_dual2(&got, &want, &u, TOL, TOL, TOL) {
+                acc.violate(&format!("layout/Dual2/{}", op), idx, cj(), json!("by-name reference"), json!(e));
+            }
+        }
+    }
     // ---------------- negative-zero twins: a derivative of -0.0 is a zero derivative. Each operand with a zero
     // entry is re-built with -0.0 in its place; equality with the other operand (either order) must not change,
     // and the twin equals the original.
@@ -752,7 +874,7 @@ pub fn run(ctx: &Ctx, replay_file: Option<String>) -> ! {
          are a function of the NAME (never of the position), so all list permutations of the same number are covered. \
          Non-trivial: pairs whose vars_cmp class (observed through the public vars_cmp) is not ArcEquivalent; the run \
          refuses to report if any of the five classes or the 'equal pair' class is empty. Oracle: by-name RefDual \
-         result, union of names each once, matching shapes, == iff equal by name with missing == 0, also when a zero derivative is written -0.0 (negative-zero twin of every operand that has a zero entry). The re-alignment entry points (to_union_vars, to_combined_vars, to_new_vars onto a covering list, new_from) leave every number unchanged by name on one shared list. History independence: on one thread the 65 x 65 ordered pairs of layouts over 4 names are combined (+, *, /, ==) one after the other, forwards and backwards, each operand built fresh. In addition a \
+         result, union of names each once, matching shapes, == iff equal by name with missing == 0, also when a zero derivative is written -0.0 (negative-zero twin of every operand that has a zero entry). Non-standard memory layouts: every operand is also built through clone_from with a reversed-memory gradient and a column-major second-derivative array and must equal its standard form, compare with the other operand as that does, and add / multiply to the by-name reference. The re-alignment entry points (to_union_vars, to_combined_vars, to_new_vars onto a covering list, new_from) leave every number unchanged by name on one shared list. Layout differential: five derivative tables (products near the largest double, subnormal products, ordinary, mixed, signed zeros) combined under five layouts (shared list, separate, re-ordered, extra zero-derivative name, both) must give bit-identical results by name for + - * /, the stored half-Hessian included. History independence: on one thread the 65 x 65 ordered pairs of layouts over 4 names are combined (+, *, /, ==) one after the other, forwards and backwards, each operand built fresh. In addition a \
          menu of LARGE layouts (7 .. 17, 33, 63, 64, 65, 70, 130 names, non-dyadic derivative values) x 9 relations of the \
          second list to the first (same, rotated, reversed, every other name, superset, disjoint, overlapping, ends fixed \
          with the middle reversed, thinned and pairwise swapped) against a dense by-name reference.",
